@@ -82,6 +82,80 @@ pub trait Probe {
     fn first_last(&self) -> (usize, usize, usize);
 }
 
+/// Sized / DST types that do not embed `TagHeader` and are therefore only
+/// 4-aligned (the trait does not demand more).
+macro_rules! sized_tag_a4 {
+    ($name:ident, $n:expr, $id:expr) => {
+        #[repr(C)]
+        pub struct $name {
+            typ: multiboot2::TagTypeId,
+            size: u32,
+            extra: [u32; $n],
+        }
+        impl MaybeDynSized for $name {
+            type Header = TagHeader;
+            const BASE_SIZE: usize = 8 + 4 * $n;
+            fn dst_len(_: &TagHeader) {}
+        }
+        impl Tag for $name {
+            type IDType = TagType;
+            const ID: TagType = TagType::Custom($id);
+        }
+        impl Probe for $name {
+            fn first_last(&self) -> (usize, usize, usize) {
+                let base = self as *const Self as *const u8 as usize;
+                let _ = (&self.typ, &self.size);
+                let last = &self.extra[$n - 1] as *const u32 as usize + 3;
+                (base, last, std::mem::size_of_val(self))
+            }
+        }
+    };
+}
+
+macro_rules! dst_tag_a4 {
+    ($name:ident, $fixed_words:expr, $id:expr) => {
+        #[derive(ptr_meta::Pointee)]
+        #[repr(C)]
+        pub struct $name {
+            typ: multiboot2::TagTypeId,
+            size: u32,
+            fixed: [u32; $fixed_words],
+            tail: [u32],
+        }
+        impl MaybeDynSized for $name {
+            type Header = TagHeader;
+            const BASE_SIZE: usize = 8 + 4 * $fixed_words;
+            fn dst_len(header: &TagHeader) -> usize {
+                assert!(header.size as usize >= Self::BASE_SIZE);
+                (header.size as usize - Self::BASE_SIZE) / 4
+            }
+        }
+        impl Tag for $name {
+            type IDType = TagType;
+            const ID: TagType = TagType::Custom($id);
+        }
+        impl Probe for $name {
+            fn first_last(&self) -> (usize, usize, usize) {
+                let base = self as *const Self as *const u8 as usize;
+                let _ = (&self.typ, &self.size, &self.fixed);
+                let last = match self.tail.last() {
+                    Some(e) => e as *const u32 as usize + 3,
+                    None => base + Self::BASE_SIZE - 1,
+                };
+                (base, last, std::mem::size_of_val(self))
+            }
+        }
+    };
+}
+
+sized_tag_a4!(A1, 1, 0x1201);
+sized_tag_a4!(A2, 2, 0x1202);
+sized_tag_a4!(A3, 3, 0x1203);
+sized_tag_a4!(A4, 4, 0x1204);
+sized_tag_a4!(A5, 5, 0x1205);
+dst_tag_a4!(B12, 1, 0x1211);
+dst_tag_a4!(B20, 3, 0x1213);
+
 sized_tag!(S0, 0, 0x1000);
 sized_tag!(S1, 1, 0x1001);
 sized_tag!(S2, 2, 0x1002);
@@ -116,7 +190,7 @@ dst_tag!(D8x24, 0, E24, 0x1150);
 dst_tag!(D16x24, 2, E24, 0x1152);
 
 /// (name, custom id, fixed part, element size; 0 = sized type)
-pub const FAMILY: [(&str, u32, usize, usize); 27] = [
+pub const FAMILY: [(&str, u32, usize, usize); 34] = [
     ("S0", 0x1000, 8, 0),
     ("S1", 0x1001, 12, 0),
     ("S2", 0x1002, 16, 0),
@@ -144,6 +218,14 @@ pub const FAMILY: [(&str, u32, usize, usize); 27] = [
     ("D24x8", 0x1144, 24, 8),
     ("D8x24", 0x1150, 8, 24),
     ("D16x24", 0x1152, 16, 24),
+    // 4-aligned members (index 27..): sized 12,16,20,24,28 bytes; DST with u32 tail
+    ("A1", 0x1201, 12, 0),
+    ("A2", 0x1202, 16, 0),
+    ("A3", 0x1203, 20, 0),
+    ("A4", 0x1204, 24, 0),
+    ("A5", 0x1205, 28, 0),
+    ("B12", 0x1211, 12, 4),
+    ("B20", 0x1213, 20, 4),
 ];
 
 #[derive(Debug, PartialEq, Eq, Clone, Copy)]
@@ -207,7 +289,14 @@ fn view(fam: usize, region: &Aligned) -> (Out, Out) {
         23 => go!(D16x8),
         24 => go!(D24x8),
         25 => go!(D8x24),
-        _ => go!(D16x24),
+        26 => go!(D16x24),
+        27 => go!(A1),
+        28 => go!(A2),
+        29 => go!(A3),
+        30 => go!(A4),
+        31 => go!(A5),
+        32 => go!(B12),
+        _ => go!(B20),
     }
 }
 
@@ -230,6 +319,10 @@ pub fn eval(c: &Case, obs: &mut Obs) -> Result<(), String> {
     let (via_get, via_cast) = view(c.fam % FAMILY.len(), &a);
     let natural = if elem == 0 { r8(fixed) } else { 0 };
     let exact_fit = if elem == 0 { size == fixed } else { size >= fixed && (size - fixed) % elem == 0 };
+    // a 4-aligned type whose own size is not a multiple of 8 has no tag it could
+    // be a same-size view of: rejecting it is correct
+    let a4 = c.fam % FAMILY.len() >= 27;
+    let viewable = !a4 || (if elem == 0 { fixed % 8 == 0 } else { size % 8 == 0 });
     obs.class(format!("!{name}"));
     obs.class(if exact_fit { "exact-fit" } else { "misfit" });
     if exact_fit || (elem == 0 && r8(size) != natural) {
@@ -239,7 +332,7 @@ pub fn eval(c: &Case, obs: &mut Obs) -> Result<(), String> {
     for (route, out) in [("get_tag", via_get), ("cast", via_cast)] {
         match out {
             Out::Panic => {
-                if exact_fit {
+                if exact_fit && viewable {
                     return Err(format!("{name} via {route}: a tag of exactly fitting size {size} was rejected"));
                 }
             }
@@ -307,6 +400,22 @@ pub fn eval_builtin(c: &BuiltinCase, obs: &mut Obs) -> Result<(), String> {
     obs.class(if ok { "fits" } else { "misfit" });
     obs.nontrivial(fnv(format!("{}/{}", c.kind, size).as_bytes()));
     obs.sample(json!({"kind": c.kind, "tag_size": size, "model_says_cast_succeeds": ok}));
+    // every reference the view hands out must alias the tag (incl. its padding)
+    let tag_len = r8(size);
+    for (k, v) in &t.lines {
+        if let Some((o, l)) = v.extent() {
+            if o.checked_add(l).map_or(true, |e| e > tag_len) {
+                return Err(format!("built-in kind {} at tag size {size}: {k}: reference ({o},{l}) does not alias the tag ({tag_len} bytes incl. padding)", c.kind));
+            }
+        }
+    }
+    // a view of a variable-length kind whose fixed part does not fit into the tag
+    // has fields that lie outside the tag, whatever size it claims to have
+    if let Some((fixed, _)) = mb2_model::expect_mbi::dst_fixed_elem(c.kind) {
+        if size < fixed && matches!(t.get("t0.cast"), Some(Val::Ext(..))) {
+            return Err(format!("built-in kind {} (fixed part {fixed} bytes) yields a typed view of a {size}-byte tag: its fixed fields cannot alias the tag", c.kind));
+        }
+    }
     match t.get("t0.cast") {
         Some(Val::Panic) if !ok => Ok(()),
         Some(Val::Ext(0, l)) if *l == r8(size) => {
@@ -340,7 +449,7 @@ pub fn subs() -> Vec<Box<dyn Sub>> {
     vec![
         Box::new(PropSub::<Case> {
             name: "custom-family",
-            rule: "27 harness-defined tag types with truthful BASE_SIZE/dst_len (sized with 0..=6 extra words; DST tails with element sizes 1,2,3,4,8,24 behind fixed parts of 8..=24 bytes, alignment-compatible combinations) with custom IDs, viewed through BootInformation::get_tag and DynSizedStructure::cast. Enumerated completely: every type x every tag size 8..=96 (thorough 160); generated: sizes up to 1024. Oracle: panic, or a view at the tag's address with size_of_val == r8(tag size) whose last field byte aliases the tag; an exactly fitting size must be accepted. Non-trivial = exact fit, or a sized type at a non-matching size; distinct by (type, size)",
+            rule: "34 harness-defined tag types with truthful BASE_SIZE/dst_len (8-aligned: sized with 0..=6 extra words; DST tails with element sizes 1,2,3,4,8,24 behind fixed parts of 8..=24 bytes, alignment-compatible combinations; 4-aligned types that do not embed TagHeader: sized 12..=28 bytes, DST with u32 tail) with custom IDs, viewed through BootInformation::get_tag and DynSizedStructure::cast. Enumerated completely: every type x every tag size 8..=96 (thorough 160); generated: sizes up to 1024. Oracle: panic, or a view at the tag's address with size_of_val == r8(tag size) whose last field byte aliases the tag; an exactly fitting size must be accepted. Non-trivial = exact fit, or a sized type at a non-matching size; distinct by (type, size)",
             profiles: Profiles::Both,
             quick: 20000,
             thorough: 300000,
